@@ -76,7 +76,7 @@ PackPlan(pl) == IF pl = <<>> THEN <<>>
 RECURSIVE PackReports(_)
 PackReports(rs) == IF rs = <<>> THEN <<>>
                    ELSE LET r == Head(rs) IN
-                        <<[ep |-> r.ep, mode |-> r.mode, constrained |-> r.ok /\ ~(r.want # r.rep),
+                        <<[ep |-> r.ep, mode |-> r.mode, constrained |-> ~r.free,     \* (a timed-out solve_all is constrained too: a PREFIX of `list`, then the timeout)
                            kind |-> r.want.kind, ans |-> PackSeq(r.want.ans), list |-> PackAnsList(r.want.list),
                            timeout |-> r.want.timeout, got |-> PackAnsList(r.rep.list), gotkind |-> r.rep.kind]>>
                         \o PackReports(Tail(rs))
